@@ -880,6 +880,9 @@ def execute(desc):
                                      f'{list(c.extra_properties)})', {'case': desc, 'cat': j}, True))
             else:     # mutating operations: add / remove / rename / phot
                 others = {k: snapshot(S, x) for k, x in enumerate(cats) if k != j} if desc['cls'] == 'sc' else {}
+                # (a FAILED remove/rename may already have deleted attributes of names that stay registered:
+                #  error atomicity is not part of the property; such names are not held against later operations)
+                pre_missing = set(k for k in exp.get(j, []) if k not in c.__dict__)
                 before = keys(c)
                 res = None
                 try:
@@ -957,13 +960,16 @@ def execute(desc):
                                          f'after {meth} ({ {k: v for k, v in od.items() if k not in ("op", "j", "val")} }) '
                                          f'extra_properties is {now_l}, expected {exp[j]} (order included)',
                                          {'case': desc, 'op': od, 'cat': j}, True))
-                        missing = [k for k in exp[j] if k not in c.__dict__]
+                        missing = [k for k in exp[j] if k not in c.__dict__ and k not in pre_missing]
                         leaked = [k for k in gone if k in c.__dict__ and k not in exp[j]]
                         if missing or leaked:
                             viol.append((f'{cname}.{meth}:extra-attribute-mismatch',
                                          f'after {meth}: registered without attribute {missing}; removed/renamed names '
                                          f'still attributes {leaked}', {'case': desc, 'op': od, 'cat': j}, True))
-                    exp[j] = list(c.extra_properties)      # failed operations may have partial effects (model only)
+                    if any(v[0].endswith((':extra_properties-wrong', ':extra-attribute-mismatch')) for v in viol):
+                        del exp[j]      # reported once: this catalog's registry is no longer followed
+                    else:
+                        exp[j] = list(c.extra_properties)  # failed operations may have partial effects (model only)
                 # V: independence — the other catalogs report what they reported before
                 for k, snap in others.items():
                     nsnap[0] += 1
